@@ -556,3 +556,169 @@ Proof.
     destruct (_ =? cExtended); [cbn; now rewrite tc_process_text, tc_backspace|reflexivity].
   - destruct (negb _); [reflexivity|]. cbn. now rewrite tc_process_text.
 Qed.
+
+(* ================= lines and files ================= *)
+Lemma iter_shift {A} (f : A -> A) k x : iter_n k f (f x) = iter_n (S k) f x.
+Proof. induction k as [|k IH]; cbn; [reflexivity|]. rewrite IH. reflexivity. Qed.
+
+Lemma C_ok_steps (P : tcv -> Prop) (ws : list Z) : forall c,
+  (forall k, (1 <= k <= length ws + 1)%nat -> P (iter_n k tc_next (c_tc c))) -> C_ok P c -> C_ok P (fold_left step ws c).
+Proof.
+  induction ws as [|w ws IH]; intros c Hk H; cbn [fold_left]; [exact H|].
+  apply IH.
+  - intros k Hr. rewrite tc_step. destruct (c_err c || is_dup c w).
+    + apply Hk. cbn [length]. lia.
+    + rewrite iter_shift. apply Hk. cbn [length]. lia.
+  - apply C_ok_step; [apply (Hk 1%nat)|apply (Hk 2%nat)|exact H]; cbn [length]; lia.
+Qed.
+
+(* a stamp of the file: the time code of one of its lines after k additions of one frame, 1 <= k <= len + 1 *)
+Definition line_stamp (lines : list text) (x : tcv) : Prop :=
+  exists line t ws k, In line lines /\ from_str line = LOk t ws /\ (1 <= k <= length ws + 1)%nat /\ x = iter_n k tc_next t.
+
+Lemma C_ok_process_line lines c line : In line lines -> C_ok (line_stamp lines) c -> C_ok (line_stamp lines) (process_line c line).
+Proof.
+  intros Hin H. unfold process_line. destruct (c_err c); [exact H|].
+  destruct (from_str line) as [| |t ws] eqn:E; [exact H|exact H|].
+  apply C_ok_steps; [|exact H]. intros k Hk. exists line, t, ws, k. repeat split; try assumption; lia.
+Qed.
+Lemma C_ok_lines lines : forall ls c, incl ls lines -> C_ok (line_stamp lines) c -> C_ok (line_stamp lines) (fold_left process_line ls c).
+Proof.
+  induction ls as [|l ls IH]; intros c Hi H; cbn [fold_left]; [exact H|].
+  apply IH; [intros x Hx; apply Hi; now right|]. apply C_ok_process_line; [apply Hi; now left|exact H].
+Qed.
+Lemma C_ok_init (P : tcv -> Prop) ta : C_ok P (ctx_init ta).
+Proof. unfold C_ok, ctx_init; cbn. split; [apply P_ok_new|split; [exact I|constructor]]. Qed.
+(* every stamp of every pushed paragraph is a stamp of the file, for all inputs *)
+Lemma stamps_run talign lines : C_ok (line_stamp lines) (run_lines talign lines).
+Proof.
+  unfold run_lines, flush. apply C_ok_new_buffered. apply C_ok_push_active; [exact I|].
+  apply C_ok_lines; [apply incl_refl|apply C_ok_init].
+Qed.
+
+(* ================= from time codes to seconds ================= *)
+From TT Require Import Proofs.C12.Integer Proofs.C12.DropFrame.
+
+Lemma two_digits_range a b x : two_digits a b = Some x -> 0 <= x <= 99.
+Proof. unfold two_digits, is_digit. destruct (_ && _) eqn:E; [|discriminate]. intros H; inversion H; subst. lia. Qed.
+Lemma match_tc_range sep t h m s f : match_tc sep t = Some (h, m, s, f) -> 0 <= h <= 99 /\ 0 <= m <= 99 /\ 0 <= s <= 99 /\ 0 <= f <= 99.
+Proof.
+  unfold match_tc.
+  do 11 (destruct t as [|? t]; [discriminate|]).
+  destruct (_ && _ && _); [|discriminate].
+  destruct (two_digits z z0) eqn:E1; [|discriminate]. destruct (two_digits z2 z3) eqn:E2; [|discriminate].
+  destruct (two_digits z5 z6) eqn:E3; [|discriminate]. destruct (two_digits z8 z9) eqn:E4; [|discriminate].
+  intros H; inversion H; subst.
+  apply two_digits_range in E1, E2, E3, E4. lia.
+Qed.
+Lemma parse_tc_30 t : parse_tc t r30 =
+  match match_tc (fun c => c =? colon) t with
+  | Some l => Some (l, r30)
+  | None => match match_tc (fun c => negb (c =? newline)) t with Some l => Some (l, r2997) | None => None end
+  end.
+Proof. reflexivity. Qed.
+(* the rate of an SCC line is 30 or 30000/1001 and its frame count is not negative *)
+Lemma parse_tc_rate t l r : parse_tc t r30 = Some (l, r) -> (r = r30 \/ r = r2997) /\ 0 <= to_frames r l.
+Proof.
+  rewrite parse_tc_30. destruct (match_tc (fun c => c =? colon) t) as [[[[h m] s] f]|] eqn:E.
+  - intros H; inversion H; subst. apply match_tc_range in E. split; [now left|].
+    unfold to_frames. change (is_df r30) with false. cbn [rn rd r30]. rewrite Z.div_1_r. lia.
+  - destruct (match_tc (fun c => negb (c =? newline)) t) as [[[[h m] s] f]|] eqn:E2; [|intros H; discriminate H].
+    intros H; inversion H; subst. apply match_tc_range in E2. split; [now right|].
+    unfold to_frames. change (is_df r2997) with true. cbv iota.
+    change (drop_per_minute r2997) with 2. change (ndf r2997) with 30. lia.
+Qed.
+Lemma from_str_rate line l r ws : from_str line = LOk (l, r) ws -> (r = r30 \/ r = r2997) /\ 0 <= to_frames r l.
+Proof.
+  unfold from_str. destruct (is_nil line); [discriminate|].
+  destruct (parse_tc line r30) as [[l' r']|] eqn:E; [|discriminate].
+  destruct (negb _); [discriminate|]. destruct (words_of _); [|discriminate].
+  intros H; inversion H; subst. now apply parse_tc_rate with (t := line).
+Qed.
+(* k additions of one frame give frame count + k at the same rate (C12 round trip) *)
+Lemma frames_iter r l : (r = r30 \/ r = r2997) -> 0 <= to_frames r l ->
+  forall k, tc_frames (iter_n k tc_next (l, r)) = to_frames r l + Z.of_nat k /\ snd (iter_n k tc_next (l, r)) = r.
+Proof.
+  intros Hr H0 k. induction k as [|k [IH1 IH2]]; [unfold tc_frames; cbn [iter_n fst snd Z.of_nat]; split; [lia|reflexivity]|].
+  cbn [iter_n]. destruct (iter_n k tc_next (l, r)) as [l' r'] eqn:E. cbn in IH2. subst r'.
+  unfold tc_next, tc_frames in *. cbn [fst snd] in *. split; [|reflexivity].
+  unfold add_frames. rewrite IH1. destruct Hr; subst r; [rewrite rt30|rewrite rt2997]; lia.
+Qed.
+
+(* a time in seconds that is frame T+k of one of the lines, 1 <= k <= len+1, at the line's rate *)
+Definition on_line_grid (lines : list text) (q : Q) : Prop :=
+  exists line lab r ws k, In line lines /\ from_str line = LOk (lab, r) ws /\ (r = r30 \/ r = r2997) /\
+    1 <= k <= zlen ws + 1 /\ q = Qmake ((to_frames r lab + k) * rd r) (Z.to_pos (rn r)).
+Lemma stamp_on_grid lines x : line_stamp lines x -> on_line_grid lines (tc_offset x).
+Proof.
+  intros (line & [lab r] & ws & k & Hin & Hfs & Hk & ->).
+  destruct (from_str_rate _ _ _ _ Hfs) as [Hr H0].
+  destruct (frames_iter r lab Hr H0 k) as [E1 E2].
+  exists line, lab, r, ws, (Z.of_nat k). repeat split; try assumption; [lia|unfold zlen; lia|].
+  unfold tc_offset. rewrite E1, E2. reflexivity.
+Qed.
+
+(* the document: begin and end of every paragraph, and the absolute begin of every span *)
+Definition span_ok (lines : list text) (pb : option Q) (paint : bool) (ch : childq) : Prop :=
+  match ch with
+  | QBr => True
+  | QSpan None _ _ => True
+  | QSpan (Some sb) _ _ =>
+      exists g, on_line_grid lines g /\
+                (sb = g \/ (paint = true /\ exists b, pb = Some b /\ sb = Qminus g b))
+  end.
+Lemma doc_times talign lines rs ps : to_model talign lines = Doc rs ps ->
+  forall p, In p ps ->
+    (forall b, q_begin p = Some b -> on_line_grid lines b) /\
+    (forall e, q_end p = Some e -> on_line_grid lines e) /\
+    exists paint, Forall (span_ok lines (q_begin p) paint) (q_children p).
+Proof.
+  unfold to_model, finish. destruct (c_err _); [discriminate|]. intros H; inversion H; subst. clear H.
+  intros p Hp. apply in_map_iff in Hp as (o & <- & Ho). apply in_rev in Ho.
+  destruct (stamps_run talign lines) as (_ & _ & Hout).
+  rewrite Forall_forall in Hout. destruct (Hout o Ho) as (Hb & He & Hc).
+  unfold finish_p; cbn. split; [|split].
+  - intros b Eb. destruct (o_begin o); [|discriminate]. inversion Eb; subst. now apply stamp_on_grid.
+  - intros e Ee. destruct (o_end o); [|discriminate]. inversion Ee; subst. now apply stamp_on_grid.
+  - exists (o_paint o). apply Forall_map. rewrite Forall_forall in *. intros ch Hch. specialize (Hc ch Hch).
+    destruct ch as [|[bt|] st tx]; cbn; try exact I. cbn in Hc.
+    exists (tc_offset bt). split; [now apply stamp_on_grid|].
+    destruct (o_paint o); [|now left]. destruct (o_begin o) as [pbt|]; [|now left].
+    right. split; [reflexivity|]. exists (tc_offset pbt). split; reflexivity.
+Qed.
+
+(* ---- what on_line_grid says, spelled out ---- *)
+(* a whole number of frames at 30 fps or at 30000/1001 fps *)
+Lemma grid_multiple lines q : on_line_grid lines q -> exists n : Z, q = Qmake n 30 \/ q = Qmake (n * 1001) 30000.
+Proof.
+  intros (line & lab & r & ws & k & _ & _ & Hr & _ & ->). exists (to_frames r lab + k).
+  destruct Hr; subst r; cbn [rn rd r30 r2997 Z.to_pos]; [left; now rewrite Z.mul_1_r|right; reflexivity].
+Qed.
+(* later than the time code of the line whose word produced it, and no later than one frame after its last word *)
+Lemma not_before_line lines q : on_line_grid lines q ->
+  exists line lab r ws, In line lines /\ from_str line = LOk (lab, r) ws /\
+    (tc_offset (lab, r) < q)%Q /\ (q <= Qmake ((to_frames r lab + zlen ws + 1) * rd r) (Z.to_pos (rn r)))%Q.
+Proof.
+  intros (line & lab & r & ws & k & Hin & Hfs & Hr & Hk & ->). exists line, lab, r, ws. repeat split; try assumption.
+  - unfold tc_offset, tc_frames, Qlt. cbn [fst snd Qnum Qden]. destruct Hr; subst r; cbn [rn rd r30 r2997 Z.to_pos]; nia.
+  - unfold Qle. cbn [Qnum Qden]. destruct Hr; subst r; cbn [rn rd r30 r2997 Z.to_pos]; nia.
+Qed.
+
+(* ---- frames per word ---- *)
+(* no word of the run is dropped as a second copy and no exception is pending *)
+Fixpoint run_clean (c : ctx) (ws : list Z) : bool :=
+  match ws with [] => true | w :: ws' => negb (c_err c || is_dup c w) && run_clean (step c w) ws' end.
+Lemma frames_clean ws : forall c, run_clean c ws = true -> c_tc (fold_left step ws c) = iter_n (length ws) tc_next (c_tc c).
+Proof.
+  induction ws as [|w ws IH]; intros c H; cbn [fold_left length]; [reflexivity|].
+  cbn [run_clean] in H. apply andb_true_iff in H as [H1 H2]. apply negb_true_iff in H1.
+  rewrite IH by exact H2. rewrite tc_step, H1. apply iter_shift.
+Qed.
+(* in general the line's time code has advanced by at most one frame per word: stamps are never late *)
+Lemma frames_at_most ws : forall c, exists k, (k <= length ws)%nat /\ c_tc (fold_left step ws c) = iter_n k tc_next (c_tc c).
+Proof.
+  induction ws as [|w ws IH]; intros c; cbn [fold_left length]; [exists 0%nat; split; [lia|reflexivity]|].
+  destruct (IH (step c w)) as (k & Hk & E). rewrite E, tc_step. destruct (c_err c || is_dup c w).
+  - exists k. split; [lia|reflexivity].
+  - exists (S k). split; [lia|apply iter_shift].
+Qed.
